@@ -8,6 +8,7 @@
 -/
 import CedarProofs.Prefix
 import CedarProofs.TypedPrefix
+import CedarProofs.IncrPrefix
 
 namespace Cedar
 
@@ -286,5 +287,178 @@ theorem deliverRest_prefixO {k iv dg ownIV rdg c0 items}
       (∀ g ∈ w, AdvFrameO k iv dg ownIV rdg c0 items g) →
       Stream.deliverRestFuel n r w <+: messagesOfT [] ((items.drop m).map Item.op) :=
   deliverRest_prefix_gen (step_advO (dg := dg) hiv hlim)
+
+/-! ### the incremental API and plain `ReceiveFrame`, generic in the adversary predicate -/
+
+theorem readNext_spec_gen {k iv c0 items} {P : WireFrame → Prop} {Q : Stream → Prop}
+    (hstep : Step k iv c0 items P Q) (hfl : ∀ it ∈ items, it.flag ≤ 1) :
+    ∀ (w : List WireFrame) (r : Stream) (m : Nat) r' w',
+      m ≤ items.length → RecvInv r k iv c0 m → (c0 + m = 0 → Q r) → (∀ g ∈ w, P g) →
+      r.readNextFrame w = .ok (r', w') →
+      ∃ m', m < m' ∧ m' ≤ items.length ∧ RecvInv r' k iv c0 m' ∧ (∀ g ∈ w', P g) ∧
+        r'.inMessage = r.inMessage ∧ r'.bytesRead = r.bytesRead ∧ r'.totalMsg = r'.recvBuf.length ∧
+        messagesOf r.recvBuf ((items.drop m).map Item.op) = r'.recvBuf :: messagesOf [] ((items.drop m').map Item.op) := by
+  intro w
+  induction w with
+  | nil => intro r m r' w' _ _ _ _ h; simp [Stream.readNextFrame] at h
+  | cons g w ih =>
+    intro r m r' w' hm hr hdg hadv h
+    unfold Stream.readNextFrame at h
+    split at h
+    · cases h
+    · rename_i s1 d fl hrecv
+      obtain ⟨it, hit, hfle, hd, hr1⟩ := hstep r s1 m g d fl hm hr hdg (hadv g (List.mem_cons_self ..)) hrecv
+      obtain ⟨hb1, hin1, hbr1⟩ := recvFrameWithEnd_buf hrecv
+      have hml : m < items.length := (List.getElem?_eq_some_iff.mp hit).1
+      have hdrop : items.drop m = it :: items.drop (m + 1) := by
+        rw [List.drop_eq_getElem_cons hml]
+        congr 1
+        exact (List.getElem?_eq_some_iff.mp hit).2
+      have hitfl : it.flag ≤ 1 := hfl it (List.mem_of_getElem? hit)
+      simp only [] at h
+      have hr2 : RecvInv { s1 with recvBuf := s1.recvBuf ++ d, totalMsg := (s1.recvBuf ++ d).length } k iv c0 (m + 1) :=
+        recvInv_congr hr1 rfl rfl rfl rfl rfl
+      by_cases h0 : fl = 0
+      · rw [if_pos h0] at h
+        obtain ⟨m', hm1, hm2, hr', hadv', hin', hbr', htot', hmsg⟩ :=
+          ih _ (m + 1) r' w' (by omega) hr2 (fun h => by omega)
+            (fun g hg => hadv g (List.mem_cons_of_mem _ hg)) h
+        refine ⟨m', by omega, hm2, hr', hadv', ?_, ?_, htot', ?_⟩
+        · rw [hin']; exact hin1
+        · rw [hbr']; exact hbr1
+        · rw [hdrop]
+          have hne : it.flag ≠ 1 := by omega
+          simp only [List.map_cons, messagesOf, Item.op, hne, if_false]
+          simp only [hb1, hd] at hmsg
+          exact hmsg
+      · rw [if_neg h0] at h
+        simp only [Except.ok.injEq, Prod.mk.injEq] at h
+        obtain ⟨rfl, rfl⟩ := h
+        refine ⟨m + 1, by omega, by omega, hr2, fun g hg => hadv g (List.mem_cons_of_mem _ hg), hin1, hbr1, rfl, ?_⟩
+        rw [hdrop]
+        have he1 : it.flag = 1 := by omega
+        simp only [List.map_cons, messagesOf, Item.op, he1, if_true, hb1, hd]
+
+theorem recvIncremental_spec_gen {k iv c0 items} {P : WireFrame → Prop} {Q : Stream → Prop} {n : Nat} (hn : 0 < n)
+    (hstep : Step k iv c0 items P Q) (hfl : ∀ it ∈ items, it.flag ≤ 1)
+    (w : List WireFrame) (r : Stream) (m : Nat) (r' : Stream) (msg : Bytes) (w' : List WireFrame)
+    (hm : m ≤ items.length) (hr : RecvInv r k iv c0 m) (hdg : c0 + m = 0 → Q r)
+    (hadv : ∀ g ∈ w, P g)
+    (hclean : r.inMessage = false) (hbuf : r.recvBuf = [])
+    (h : r.recvIncremental n w = .ok (r', msg, w')) :
+    ∃ m', m < m' ∧ m' ≤ items.length ∧ RecvInv r' k iv c0 m' ∧ (∀ g ∈ w', P g) ∧
+      r'.inMessage = false ∧ r'.recvBuf = [] ∧
+      messagesOf [] ((items.drop m).map Item.op) = msg :: messagesOf [] ((items.drop m').map Item.op) := by
+  unfold Stream.recvIncremental at h
+  split at h
+  · cases h
+  · rename_i s1 w1 hstart
+    unfold Stream.startMessageRead at hstart
+    have hni : ¬ r.inMessage = true := by simp [hclean]
+    rw [if_neg hni] at hstart
+    split at hstart
+    · cases hstart
+    · rename_i s0 w0 hrn
+      simp only [Except.ok.injEq, Prod.mk.injEq] at hstart
+      obtain ⟨rfl, rfl⟩ := hstart
+      obtain ⟨m', hm1, hm2, hr0, hadv0, _, _, htot0, hmsg⟩ :=
+        readNext_spec_gen hstep hfl w r m s0 w0 hm hr hdg hadv hrn
+      rw [hbuf] at hmsg
+      have hra := readAll_all (s0.recvBuf.length + 1) { s0 with inMessage := true, bytesRead := 0 } n []
+        hn rfl (Nat.zero_le _) (by show s0.recvBuf.length - 0 < s0.recvBuf.length + 1; omega)
+      have hlen : ({ s0 with inMessage := true, bytesRead := 0 } : Stream).recvBuf.length = s0.recvBuf.length := rfl
+      rw [hlen] at h
+      rw [hra] at h
+      simp only [] at h
+      unfold Stream.endMessageRead at h
+      simp only [Bool.not_true, Bool.false_eq_true, if_false] at h
+      have hnl : ¬ s0.recvBuf.length < s0.totalMsg := by omega
+      rw [if_neg hnl] at h
+      simp only [Except.ok.injEq, Prod.mk.injEq] at h
+      obtain ⟨rfl, rfl, rfl⟩ := h
+      refine ⟨m', hm1, hm2, recvInv_congr hr0 rfl rfl rfl rfl rfl, hadv0, rfl, rfl, ?_⟩
+      rw [hmsg]
+      simp
+
+theorem deliverInc_prefix_gen {k iv c0 items} {P : WireFrame → Prop} {Q : Stream → Prop} {n : Nat} (hn : 0 < n)
+    (hstep : Step k iv c0 items P Q) (hfl : ∀ it ∈ items, it.flag ≤ 1) :
+    ∀ (fuel : Nat) (r : Stream) (w : List WireFrame) (m : Nat),
+      m ≤ items.length → RecvInv r k iv c0 m → (c0 + m = 0 → Q r) → (∀ g ∈ w, P g) →
+      r.inMessage = false → r.recvBuf = [] →
+      Stream.deliverIncFuel fuel n r w <+: messagesOf [] ((items.drop m).map Item.op) := by
+  intro fuel
+  induction fuel with
+  | zero => intro r w m _ _ _ _ _ _; simp [Stream.deliverIncFuel]
+  | succ fuel ih =>
+    intro r w m hm hr hdg hadv hclean hbuf
+    unfold Stream.deliverIncFuel
+    split
+    · simp
+    · rename_i r' msg w' hrc
+      obtain ⟨m', hm1, hm2, hr', hadv', hc', hb', hmsg⟩ :=
+        recvIncremental_spec_gen hn hstep hfl w r m r' msg w' hm hr hdg hadv hclean hbuf hrc
+      rw [hmsg]
+      exact List.prefix_cons_inj msg |>.mpr (ih r' w' m' hm2 hr' (fun h => by omega) hadv' hc' hb')
+
+theorem deliverInc_prefixO {k iv dg ownIV rdg c0 items} {n : Nat} (hn : 0 < n)
+    (hiv : iv.w0 < 2^32) (hlim : c0 + items.length ≤ counterLimit) (hfl : ∀ it ∈ items, it.flag ≤ 1) :
+    ∀ (fuel : Nat) (r : Stream) (w : List WireFrame) (m : Nat),
+      m ≤ items.length → RecvInv r k iv c0 m →
+      (c0 + m = 0 → r.encIV = ownIV ∧ ownIV.w0 < 2^32 ∧ (r.dig.fr, r.dig.fs) = rdg) →
+      (∀ g ∈ w, AdvFrameO k iv dg ownIV rdg c0 items g) → r.inMessage = false → r.recvBuf = [] →
+      Stream.deliverIncFuel fuel n r w <+: messagesOf [] ((items.drop m).map Item.op) :=
+  deliverInc_prefix_gen hn (step_advO (dg := dg) hiv hlim) hfl
+
+/-- plain `ReceiveFrame` under the enlarged adversary -/
+theorem recvFrame_accepts_only_nextO {r r' : Stream} {k iv dg ownIV rdg c0 m items g d}
+    (hiv : iv.w0 < 2^32) (hlim : c0 + items.length ≤ counterLimit) (hm : m ≤ items.length)
+    (hr : RecvInv r k iv c0 m)
+    (hown : c0 + m = 0 → r.encIV = ownIV ∧ ownIV.w0 < 2^32 ∧ (r.dig.fr, r.dig.fs) = rdg)
+    (hg : AdvFrameO k iv dg ownIV rdg c0 items g)
+    (h : r.recvFrame g = .ok (r', d)) :
+    ∃ it, items[m]? = some it ∧ d = it.plain ∧ RecvInv r' k iv c0 (m + 1) := by
+  have hk := hr.key
+  have he := hr.enc
+  unfold Stream.recvFrame at h
+  split at h
+  · cases h
+  · split at h
+    · simp [Stream.crypting, hk, he] at h
+    · simp only [hk, he] at h
+      split at h
+      · cases h
+      · rename_i ivr p hopen
+        simp only [Except.ok.injEq, Prod.mk.injEq] at h
+        obtain ⟨rfl, rfl⟩ := h
+        obtain ⟨it, hit, _, hp, hivr⟩ := open_only_nextO hiv hlim hm hr hown hg hopen
+        subst hivr
+        exact ⟨it, hit, hp, afterOpen_recvInv hr _⟩
+
+theorem deliverFrames_prefixO {k iv dg ownIV rdg c0 items}
+    (hiv : iv.w0 < 2^32) (hlim : c0 + items.length ≤ counterLimit) :
+    ∀ (w : List WireFrame) (r : Stream) (m : Nat),
+      m ≤ items.length → RecvInv r k iv c0 m →
+      (c0 + m = 0 → r.encIV = ownIV ∧ ownIV.w0 < 2^32 ∧ (r.dig.fr, r.dig.fs) = rdg) →
+      (∀ g ∈ w, AdvFrameO k iv dg ownIV rdg c0 items g) →
+      Stream.deliverFrames r w <+: (items.drop m).map Item.plain := by
+  intro w
+  induction w with
+  | nil => intro r m _ _ _ _; simp [Stream.deliverFrames]
+  | cons g w ih =>
+    intro r m hm hr hdg hadv
+    unfold Stream.deliverFrames
+    split
+    · simp
+    · rename_i r' d hrc
+      obtain ⟨it, hit, hd, hr'⟩ :=
+        recvFrame_accepts_only_nextO hiv hlim hm hr hdg (hadv g (List.mem_cons_self ..)) hrc
+      have hml : m < items.length := (List.getElem?_eq_some_iff.mp hit).1
+      have hdrop : items.drop m = it :: items.drop (m + 1) := by
+        rw [List.drop_eq_getElem_cons hml]
+        congr 1
+        exact (List.getElem?_eq_some_iff.mp hit).2
+      rw [hdrop, List.map_cons, hd]
+      exact List.prefix_cons_inj it.plain |>.mpr
+        (ih r' (m + 1) (by omega) hr' (fun h => by omega) (fun g hg => hadv g (List.mem_cons_of_mem _ hg)))
 
 end Cedar
